@@ -32,6 +32,9 @@ pub struct Spec {
     /// storage read failures (permille) while the concurrent calls run: a failing call next to a succeeding one
     #[serde(default)]
     pub read_fail_permille: u32,
+    /// virtual milliseconds (= scheduler decisions, roughly) after which each concurrent call is invoked: 0 = at once
+    #[serde(default)]
+    pub start_delay_ms: Vec<u64>,
 }
 
 fn gen(rng: &mut Rng, _tier: Tier) -> Spec {
@@ -78,6 +81,13 @@ fn gen(rng: &mut Rng, _tier: Tier) -> Spec {
         }
         concurrent.push(b);
     }
+    if rng.chance(1, 4) {
+        // one of the concurrent calls is malformed (repeats a label): it must fail WITHOUT EFFECT - in particular
+        // without disturbing a valid call that is in the middle of its transaction
+        let which = rng.below(concurrent.len() as u64) as usize;
+        let dup = concurrent[which][rng.below(concurrent[which].len() as u64) as usize].0.clone();
+        concurrent[which].push((dup, gen_value(rng, &mut unique)));
+    }
     Spec {
         cfg: if rng.chance(1, 2) { Cfg::WhatsApp } else { Cfg::Experimental },
         par_insert: *rng.pick(&[0, 0, 2]),
@@ -90,6 +100,7 @@ fn gen(rng: &mut Rng, _tier: Tier) -> Spec {
         shared_instance: rng.chance(1, 3),
         check_seed: rng.next_u64(),
         read_fail_permille: if rng.chance(1, 4) { *rng.pick(&[10, 40]) } else { 0 },
+        start_delay_ms: (0..k).map(|_| if rng.chance(1, 2) { 0 } else { rng.range(1, 80) }).collect(),
     }
 }
 
@@ -159,14 +170,26 @@ async fn run_t<TC: ModelCfg>(spec: Spec) -> Out {
     }
     let shared = std::sync::Arc::new(dir.clone());
     let mut handles = vec![];
-    for b in spec.concurrent.iter() {
+    for (ci, b) in spec.concurrent.iter().enumerate() {
         let batch = to_akd_batch(b);
+        // a call may be invoked while another one is already under way
+        let delay = spec.start_delay_ms.get(ci).copied().unwrap_or(0);
         if spec.shared_instance {
             let d = shared.clone();
-            handles.push(tokio::spawn(async move { d.publish(batch).await }));
+            handles.push(tokio::spawn(async move {
+                if delay > 0 {
+                    tokio::time::sleep(std::time::Duration::from_millis(delay)).await;
+                }
+                d.publish(batch).await
+            }));
         } else {
             let d = dir.clone();
-            handles.push(tokio::spawn(async move { d.publish(batch).await }));
+            handles.push(tokio::spawn(async move {
+                if delay > 0 {
+                    tokio::time::sleep(std::time::Duration::from_millis(delay)).await;
+                }
+                d.publish(batch).await
+            }));
         }
     }
     let mut results = vec![];
@@ -260,7 +283,7 @@ async fn run_t<TC: ModelCfg>(spec: Spec) -> Out {
                 out.nontrivial.push(fp(&(spec.check_seed, ok_pairs.clone())));
             }
             if n_err > 0 {
-                out.p("some_call_refused_(transaction_active)");
+                out.p("some_call_failed_without_effect");
             }
             // the final state serves everything, and audits verify against the returned pairs
             let mut obs = Obs::default();
@@ -365,7 +388,7 @@ impl Arm for C12 {
         out
     }
     fn rule(&self) -> String {
-        "one case = 0..2 sequential publishes, then 2 or 3 publish calls issued concurrently (batches disjoint / overlapping / identical / free) on clones of one Directory or on one shared instance, cached or uncached, interleaved by the simulator at every database operation and (in two thirds of the runs) at a random subset of StorageManager entry points under a seeded policy (uniform, sticky, fifo/lifo with inversions). Oracle over the history of returns: there must exist an order of the successful calls such that applying their batches one after another to the model (calls that failed having no effect) reproduces every returned (epoch, root hash) pair and the final get_epoch_hash; then every label's lookup/history and ALL audit pairs must verify against the model hashes on the final state, a fresh instance must agree, and no transaction may be left open; a simulation that stops making progress is reported. non-trivial = at least two of the concurrent calls advanced the epoch; distinct = distinct (seed, returned pairs)".into()
+        "one case = 0..2 sequential publishes, then 2 or 3 publish calls issued concurrently (batches disjoint / overlapping / identical / free; in a quarter of the cases one call is malformed - it repeats a label - and must fail without effect; each call is invoked at once or after a seeded delay of 1..80 virtual ms, i.e. while another call is under way) on clones of one Directory or on one shared instance, cached or uncached, interleaved by the simulator at every database operation and (in two thirds of the runs) at a random subset of StorageManager entry points under a seeded policy (uniform, sticky, fifo/lifo with inversions). Oracle over the history of returns: there must exist an order of the successful calls such that applying their batches one after another to the model (calls that failed having no effect) reproduces every returned (epoch, root hash) pair and the final get_epoch_hash; then every label's lookup/history and ALL audit pairs must verify against the model hashes on the final state, a fresh instance must agree, and no transaction may be left open; a simulation that stops making progress is reported. non-trivial = at least two of the concurrent calls advanced the epoch; distinct = distinct (seed, returned pairs)".into()
     }
     fn assumptions(&self) -> Vec<String> {
         vec![
